@@ -31,7 +31,7 @@ fn meta() -> Meta {
     Meta {
         id: "C20",
         level: "exploration",
-        rule: "every message of 2-3 (quick) / 2-4 (thorough) tokens over {quote, backslash, LF, CR, TAB, 0x01, 0x7f, e-acute, emoji, braces, colon, space, a} with all fields present, and 10 messages (empty, plain, two lines, quotes, backslash, control characters, non-ASCII, braces, JSON-like, 4 KiB) x module path / file / line present or absent (8) x key-values {none, one string, string+int} x 5 levels x 9 format functions (default, opt, detailed, with_thread, their coloured variants, json) x {LF, CRLF} x {Direct, BufferDontFlush(8), Async{1,8}}: framing against the same format function, fidelity against an independent re-rendering / JSON decoding; recursive logging (a Display that logs two inner records) for every format x ending x sync mode; single timestamp across file + additional writer + stderr + stdout under a clock that advances on every query; distinct_nontrivial = distinct (format, ending, mode, record) with a message that needs escaping or spans lines, or absent fields; recursive logging also with a rotation due at every write: every file consists of whole lines; a format function that fails after writing part of its output: the records around it are framed as usual",
+        rule: "every message of 2-3 (quick) / 2-4 (thorough) tokens over {quote, backslash, LF, CR, TAB, 0x01, 0x7f, e-acute, emoji, braces, colon, space, a} with all fields present, and 10 messages (empty, plain, two lines, quotes, backslash, control characters, non-ASCII, braces, JSON-like, 4 KiB) x module path / file / line present or absent (8) x key-values {none, one string, string+int} x 5 levels x 9 format functions (default, opt, detailed, with_thread, their coloured variants, json) x {LF, CRLF} x {Direct, BufferDontFlush(8), Async{1,8}}: framing against the same format function, fidelity against an independent re-rendering / JSON decoding; recursive logging (a Display that logs two inner records) for every format x ending x sync mode; single timestamp across file + additional writer + stderr + stdout under a clock that advances on every query; distinct_nontrivial = distinct (format, ending, mode, record) with a message that needs escaping or spans lines, or absent fields; recursive logging also with a rotation due at every write: every file consists of whole lines; a format function that fails after writing part of its output: the records around it are framed as usual; the failing-format unit also with async message capacities 64 and 4096",
         assumptions: vec![
             "virtual clock frozen for framing / fidelity, self-advancing (+1 s per query) for the single-timestamp clause".into(),
             "colour codes are removed with the pattern ESC [ digits ; ... m".into(),
